@@ -24,6 +24,8 @@ type half struct {
 	deadline time.Time
 	timer    *time.Timer
 	written  int64
+	stall    bool  // virtual time: a read that would block with an armed deadline times out at once
+	werr     error // injected write error
 }
 
 func newHalf() *half { h := &half{}; h.cond = sync.NewCond(&h.mu); return h }
@@ -31,6 +33,9 @@ func newHalf() *half { h := &half{}; h.cond = sync.NewCond(&h.mu); return h }
 func (h *half) write(p []byte) (int, error) {
 	h.mu.Lock()
 	defer h.mu.Unlock()
+	if h.werr != nil {
+		return 0, h.werr
+	}
 	if h.wclosed || h.rclosed {
 		return 0, io.ErrClosedPipe
 	}
@@ -58,7 +63,7 @@ func (h *half) read(p []byte) (int, error) {
 		if h.wclosed {
 			return 0, io.EOF
 		}
-		if !h.deadline.IsZero() && !time.Now().Before(h.deadline) {
+		if !h.deadline.IsZero() && (h.stall || !time.Now().Before(h.deadline)) {
 			return 0, os.ErrDeadlineExceeded
 		}
 		h.cond.Wait()
@@ -139,6 +144,23 @@ func (c *Conn) InjectPeerReadError(err error) {
 	c.w.mu.Lock()
 	c.w.rerr = err
 	c.w.cond.Broadcast()
+	c.w.mu.Unlock()
+}
+
+// Stall puts this end's reads into virtual-time stall mode: nothing more will
+// arrive; a Read that would block while a read deadline is armed fails with a
+// timeout at once, a Read without deadline blocks until Close.
+func (c *Conn) Stall() {
+	c.r.mu.Lock()
+	c.r.stall = true
+	c.r.cond.Broadcast()
+	c.r.mu.Unlock()
+}
+
+// FailWrites makes every further Write on this end fail with err.
+func (c *Conn) FailWrites(err error) {
+	c.w.mu.Lock()
+	c.w.werr = err
 	c.w.mu.Unlock()
 }
 
